@@ -564,6 +564,9 @@ func execAPI(f []string) string {
 		}
 		return "ok " + r
 	case "probe":
+		if len(f) > 1 && f[1] == "xmlpipe" {
+			return execXMLPipe(f[2:])
+		}
 		return runProbe(f[1:])
 	}
 	return "bad-op"
